@@ -9685,21 +9685,21 @@ def _write_node(node, xml_tree=None, viewport_transform=None):
             _write_node(child, xml_tree, vt)
     elif isinstance(node, Ellipse):
         xml_tree = subxml(xml_tree, SVG_TAG_ELLIPSE)
-        if node.cx:
+        if node.cx is not None:
             xml_tree.set(SVG_ATTR_CENTER_X, str(node.cx))
-        if node.cy:
+        if node.cy is not None:
             xml_tree.set(SVG_ATTR_CENTER_Y, str(node.cy))
-        if node.rx:
+        if node.rx is not None:
             xml_tree.set(SVG_ATTR_RADIUS_X, str(node.rx))
-        if node.ry:
+        if node.ry is not None:
             xml_tree.set(SVG_ATTR_RADIUS_Y, str(node.ry))
     elif isinstance(node, Circle):
         xml_tree = subxml(xml_tree, SVG_TAG_CIRCLE)
-        if node.cx:
+        if node.cx is not None:
             xml_tree.set(SVG_ATTR_CENTER_X, str(node.cx))
-        if node.cy:
+        if node.cy is not None:
             xml_tree.set(SVG_ATTR_CENTER_Y, str(node.cy))
-        if node.rx:
+        if node.rx is not None:
             xml_tree.set(SVG_ATTR_RADIUS, str(node.rx))
     elif isinstance(node, Image):
         xml_tree = subxml(xml_tree, SVG_TAG_IMAGE)
@@ -9723,13 +9723,13 @@ def _write_node(node, xml_tree=None, viewport_transform=None):
             xml_tree.set(SVG_ATTR_HEIGHT, str(node.height))
     elif isinstance(node, SimpleLine):
         xml_tree = subxml(xml_tree, SVG_TAG_LINE)
-        if node.x1:
+        if node.x1 is not None:
             xml_tree.set(SVG_ATTR_X1, str(node.x1))
-        if node.y1:
+        if node.y1 is not None:
             xml_tree.set(SVG_ATTR_Y1, str(node.y1))
-        if node.x2:
+        if node.x2 is not None:
             xml_tree.set(SVG_ATTR_X2, str(node.x2))
-        if node.y2:
+        if node.y2 is not None:
             xml_tree.set(SVG_ATTR_Y2, str(node.y2))
     elif isinstance(node, Path):
         xml_tree = subxml(xml_tree, SVG_TAG_PATH)
@@ -9748,17 +9748,17 @@ def _write_node(node, xml_tree=None, viewport_transform=None):
         )
     elif isinstance(node, Rect):
         xml_tree = subxml(xml_tree, SVG_TAG_RECT)
-        if node.x:
+        if node.x is not None:
             xml_tree.set(SVG_ATTR_X, str(node.x))
-        if node.y:
+        if node.y is not None:
             xml_tree.set(SVG_ATTR_Y, str(node.y))
-        if node.rx:
+        if node.rx is not None:
             xml_tree.set(SVG_ATTR_RADIUS_X, str(node.rx))
-        if node.ry:
+        if node.ry is not None:
             xml_tree.set(SVG_ATTR_RADIUS_Y, str(node.ry))
-        if node.width:
+        if node.width is not None:
             xml_tree.set(SVG_ATTR_WIDTH, str(node.width))
-        if node.height:
+        if node.height is not None:
             xml_tree.set(SVG_ATTR_HEIGHT, str(node.height))
     elif isinstance(node, Text):
         xml_tree = subxml(xml_tree, SVG_TAG_TEXT)
